@@ -6,10 +6,12 @@ import (
 	"encoding/base64"
 	"encoding/binary"
 	"fmt"
+	quic "github.com/quic-go/quic-go"
 	"io"
 	"net"
 	"net/http"
 	"net/netip"
+	"sort"
 	"strconv"
 	"strings"
 	"sync"
@@ -100,6 +102,7 @@ type UpServer struct {
 	// re-uses an id on a connection cannot see this.
 	ReplayOnReuse bool
 	sentByID      map[[2]int][]byte
+	qconns        map[int]quic.Connection // DoQ connections (closed by CloseIdleConns)
 }
 
 type upConn struct {
@@ -240,11 +243,30 @@ func (u *UpServer) CloseIdleConns() int {
 			delete(u.conns, id)
 		}
 	}
+	// (DoQ: the connections are closed with CONNECTION_CLOSE, which the peer
+	// learns at once - "idle for too long")
+	var qs []quic.Connection
+	for _, id := range sortedQIDs(u.qconns) {
+		qs = append(qs, u.qconns[id])
+		delete(u.qconns, id)
+	}
 	u.mu.Unlock()
 	for _, c := range cs {
 		c.c.Close()
 	}
-	return len(cs)
+	for _, c := range qs {
+		c.CloseWithError(0, "idle for too long")
+	}
+	return len(cs) + len(qs)
+}
+
+func sortedQIDs(m map[int]quic.Connection) []int {
+	ids := make([]int, 0, len(m))
+	for id := range m {
+		ids = append(ids, id)
+	}
+	sort.Ints(ids)
+	return ids
 }
 
 // ResetAll resets every connection.
